@@ -1,6 +1,6 @@
 (* The whole reference grammar, value and event level: the REAL driver of Model/Interp.v (lr_step over the generated
    tables, real grammar actions, real host callbacks) runs the token sequence of every well-parenthesised expression
-   built from numbers, variables, cells, ranges, calls with any number of comma-separated arguments, unary minus, the
+   built from numbers, variables, cells, ranges, calls with any number of arguments separated by ",", ";" or "\", unary minus, the
    eleven binary operators and parentheses - of any size and nesting - to exactly the post-order evaluation xval:
    same value or same failure, same events in the same order.  Used by C09 (names) and C10 (reference events). *)
 From HX Require Import Model.Base Model.Lexer Model.Value Model.Operators Model.Cell Model.Interp Proofs.LRcert Proofs.LRvalue Proofs.ComparatorProofs.
@@ -8,6 +8,12 @@ From Coq Require Import Lia ZifyBool.
 Open Scope Z_scope.
 
 (* ---------- expressions ---------- *)
+Inductive sepkind := SComma | SSemi | SBack.
+Definition all_seps : list sepkind := [SComma; SSemi; SBack].
+Definition sep_term (s : sepkind) : Z := match s with SComma => T_COMMA | SSemi => T_SEMICOLON | SBack => T_BACKSLASH end.
+Definition sep_nt (s : sepkind) : Z := match s with SComma => N_expseqcomma | SSemi => N_expseqsemicolon | SBack => N_expseqbackslash end.
+Definition sep_fn (s : sepkind) : Z := match s with SComma => 12 | SSemi => 11 | SBack => 13 end.
+Definition sep_lex (s : sepkind) : list Z := match s with SComma => [44] | SSemi => [59] | SBack => [92] end.
 Inductive expr :=
   | XNum (d : list Z)
   | XDec (ip fp : list Z)                (* NUMBER DECIMAL NUMBER *)
@@ -19,7 +25,7 @@ Inductive expr :=
   | XVar (n : list Z)
   | XCell (k : Z) (lab : list Z)
   | XRange (k1 : Z) (l1 : list Z) (k2 : Z) (l2 : list Z)
-  | XCall (name : list Z) (args : list expr)
+  | XCall (sep : sepkind) (name : list Z) (args : list expr)   (* sep: the separator written between the arguments *)
   | XNeg (e : expr)
   | XBin (b : binop) (l r : expr)
   | XPar (e : expr).
@@ -36,7 +42,7 @@ Section ExprInd.
   Hypothesis HVar : forall n, P (XVar n).
   Hypothesis HCell : forall k l, P (XCell k l).
   Hypothesis HRange : forall k1 l1 k2 l2, P (XRange k1 l1 k2 l2).
-  Hypothesis HCall : forall n args, Forall P args -> P (XCall n args).
+  Hypothesis HCall : forall sep n args, Forall P args -> P (XCall sep n args).
   Hypothesis HNeg : forall e, P e -> P (XNeg e).
   Hypothesis HBin : forall b l r, P l -> P r -> P (XBin b l r).
   Hypothesis HPar : forall e, P e -> P (XPar e).
@@ -44,7 +50,7 @@ Section ExprInd.
     match e with
     | XNum d => HNum d | XDec ip fp => HDec ip fp | XFrac fp => HFrac fp | XPct n => HPct n | XPowLit a b => HPowLit a b
     | XStr s => HStr s | XErr s => HErr s | XVar n => HVar n | XCell k l => HCell k l | XRange k1 l1 k2 l2 => HRange k1 l1 k2 l2
-    | XCall n args => HCall n args ((fix go (l : list expr) : Forall P l :=
+    | XCall sep n args => HCall sep n args ((fix go (l : list expr) : Forall P l :=
                         match l with [] => Forall_nil P | a :: r => Forall_cons a (expr_ind' a) (go r) end) args)
     | XNeg e => HNeg e (expr_ind' e)
     | XBin b l r => HBin b l r (expr_ind' l) (expr_ind' r)
@@ -53,11 +59,11 @@ Section ExprInd.
 End ExprInd.
 
 Definition cell_kinds : list Z := [T_ABSOLUTE_CELL; T_MIXED_CELL; T_RELATIVE_CELL].
-Definition comma : token := Tok T_COMMA [44].
-Definition seq_toks (f : expr -> list token) : list expr -> list token :=
-  fix go (l : list expr) : list token := match l with [] => [] | a :: r => comma :: f a ++ go r end.
-Definition args_toks (f : expr -> list token) (l : list expr) : list token :=
-  match l with [] => [] | a :: r => f a ++ seq_toks f r end.
+Definition sep_tok (sp : sepkind) : token := Tok (sep_term sp) (sep_lex sp).
+Definition seq_toks (sp : sepkind) (f : expr -> list token) : list expr -> list token :=
+  fix go (l : list expr) : list token := match l with [] => [] | a :: r => sep_tok sp :: f a ++ go r end.
+Definition args_toks (sp : sepkind) (f : expr -> list token) (l : list expr) : list token :=
+  match l with [] => [] | a :: r => f a ++ seq_toks sp f r end.
 Fixpoint xtoks (e : expr) : list token :=
   match e with
   | XNum d => [Tok T_NUMBER d]
@@ -70,7 +76,7 @@ Fixpoint xtoks (e : expr) : list token :=
   | XVar n => [Tok T_VARIABLE n]
   | XCell k l => [Tok k l]
   | XRange k1 l1 k2 l2 => [Tok k1 l1; Tok T_COLON [58]; Tok k2 l2]
-  | XCall n args => Tok T_FUNCTION n :: Tok T_LPAREN [40] :: args_toks xtoks args ++ [Tok T_RPAREN [41]]
+  | XCall sp n args => Tok T_FUNCTION n :: Tok T_LPAREN [40] :: args_toks sp xtoks args ++ [Tok T_RPAREN [41]]
   | XNeg e => Tok T_MINUS [45] :: xtoks e
   | XBin b l r => xtoks l ++ Tok (op_term b) (op_lexeme b) :: xtoks r
   | XPar e => Tok T_LPAREN [40] :: xtoks e ++ [Tok T_RPAREN [41]]
@@ -103,7 +109,7 @@ Fixpoint xval (h : host) (e : expr) : evres value :=
   | XVar n => call_variable h n
   | XCell _ l => call_cell_value h l
   | XRange _ a _ b => call_range_value h a b
-  | XCall n args => ebind (xvals (xval h) args) (fun vs => call_function h n vs)
+  | XCall _ n args => ebind (xvals (xval h) args) (fun vs => call_function h n vs)
   | XNeg e => ebind (xval h e) (fun v => (of_outcome (eval_neg v), []))
   | XBin b l r => ebind (xval h l) (fun lv => ebind (xval h r) (fun rv => (bin_res b lv rv, [])))
   | XPar e => xval h e
@@ -118,7 +124,7 @@ Fixpoint xwp (e : expr) : Prop :=
   | XPowLit a _ => tok_is a 46 = false
   | XCell k _ => In k cell_kinds
   | XRange k1 _ k2 _ => In k1 cell_kinds /\ In k2 cell_kinds
-  | XCall _ args => (fix all (l : list expr) : Prop := match l with [] => True | a :: r => xwp a /\ all r end) args
+  | XCall _ _ args => (fix all (l : list expr) : Prop := match l with [] => True | a :: r => xwp a /\ all r end) args
   | XPar e => xwp e
   | XNeg e => xwp e /\ xtop e = None
   | XBin b l r => xwp l /\ xwp r
@@ -156,13 +162,13 @@ Definition nSeq1 : Z := prod_lhs iSeq1.
 Definition qSeq1 : Z := goto_nt sFL nSeq1.
 Definition sSeq1R : Z := shift_target qSeq1 T_RPAREN.
 Definition iCall1 : Z := reduce_target sSeq1R 0.
-Definition iSeqC : Z := reduce_target qA1 T_COMMA.       (* expseqcomma : expression *)
-Definition qSC : Z := goto_nt sFL N_expseqcomma.
-Definition sC : Z := shift_target qSC T_COMMA.
-Definition qC : Z := goto_target sC.
-Definition iSeqCC : Z := reduce_target qC T_COMMA.       (* expseqcomma : expseqcomma COMMA expression *)
-Definition sCR : Z := shift_target qSC T_RPAREN.
-Definition iCallN : Z := reduce_target sCR 0.
+Definition iSeqC (sp : sepkind) : Z := reduce_target qA1 (sep_term sp).       (* expseqX : expression *)
+Definition qSC (sp : sepkind) : Z := goto_nt sFL (sep_nt sp).
+Definition sC (sp : sepkind) : Z := shift_target (qSC sp) (sep_term sp).
+Definition qC (sp : sepkind) : Z := goto_target (sC sp).
+Definition iSeqCC (sp : sepkind) : Z := reduce_target (qC sp) (sep_term sp).   (* expseqX : expseqX SEP expression *)
+Definition sCR (sp : sepkind) : Z := shift_target (qSC sp) T_RPAREN.
+Definition iCallN (sp : sepkind) : Z := reduce_target (sCR sp) 0.
 (* literals: STRING, XLERROR, and the composite number forms *)
 Definition sS : Z := shift_target 0 T_STRING.
 Definition iS : Z := reduce_target sS 0.
@@ -197,7 +203,7 @@ Definition d_reduces : bool :=
                     act_eqb (act_of qCell k) (Some (Reduce iCellE)) &&
                     forallb (fun c1 => forallb (fun c2 => act_eqb (act_of (sCell2 c1 c2) k) (Some (Reduce (iRange c1 c2)))) cell_kinds) cell_kinds &&
                     act_eqb (act_of sF0 k) (Some (Reduce iCall0)) && act_eqb (act_of sSeq1R k) (Some (Reduce iCall1)) &&
-                    act_eqb (act_of sCR k) (Some (Reduce iCallN))) follow_list.
+                    forallb (fun sp => act_eqb (act_of (sCR sp) k) (Some (Reduce (iCallN sp)))) all_seps) follow_list.
 Definition d_prods : bool :=
   prod_eqb iVS NVS 1 17 [T_VARIABLE] && prod_eqb iVar E 1 16 [- NVS] &&
   forallb (fun c => prod_eqb (iCell c) N_cell 1 20 [c]) cell_kinds && prod_eqb iCellE E 1 19 [- N_cell] &&
@@ -205,19 +211,24 @@ Definition d_prods : bool :=
   prod_eqb iCall0 E 3 7 [T_FUNCTION; T_LPAREN; T_RPAREN] &&
   match prod_of iSeq1 with Some (l, n, f, r) => (n =? 1) && seq_fn f && list_eqb r [- E] | None => false end &&
   prod_eqb iCall1 E 4 8 [T_FUNCTION; T_LPAREN; - nSeq1; T_RPAREN] &&
-  prod_eqb iSeqC N_expseqcomma 1 12 [- E] && prod_eqb iSeqCC N_expseqcomma 3 12 [- N_expseqcomma; T_COMMA; - E] &&
-  prod_eqb iCallN E 4 8 [T_FUNCTION; T_LPAREN; - N_expseqcomma; T_RPAREN].
+  forallb (fun sp => prod_eqb (iSeqC sp) (sep_nt sp) 1 (sep_fn sp) [- E] &&
+                     prod_eqb (iSeqCC sp) (sep_nt sp) 3 (sep_fn sp) [- sep_nt sp; sep_term sp; - E] &&
+                     prod_eqb (iCallN sp) E 4 8 [T_FUNCTION; T_LPAREN; - sep_nt sp; T_RPAREN]) all_seps.
 Definition d_call : bool :=
   forallb (fun c => forallb (fun c2 => act_eqb (act_of (sCell c) T_COLON) (Some (Shift (sColon c))) &&
                                        act_eqb (act_of (sColon c) c2) (Some (Shift (sCell2 c c2)))) cell_kinds) cell_kinds &&
-  act_eqb (act_of sF T_LPAREN) (Some (Shift sFL)) && existsb (Z.eqb sFL) es_list && existsb (Z.eqb sC) es_list &&
-  match ctx qA1 with None => true | Some _ => false end && match ctx qC with None => true | Some _ => false end &&
+  act_eqb (act_of sF T_LPAREN) (Some (Shift sFL)) && existsb (Z.eqb sFL) es_list &&
+  match ctx qA1 with None => true | Some _ => false end &&
   act_eqb (act_of sFL T_RPAREN) (Some (Shift sF0)) &&
   act_eqb (act_of qA1 T_RPAREN) (Some (Reduce iSeq1)) && (0 <? qSeq1) && act_eqb (act_of qSeq1 T_RPAREN) (Some (Shift sSeq1R)) &&
-  act_eqb (act_of qA1 T_COMMA) (Some (Reduce iSeqC)) && (0 <? qSC) && act_eqb (act_of qSC T_COMMA) (Some (Shift sC)) &&
-  act_eqb (act_of qC T_COMMA) (Some (Reduce iSeqCC)) && act_eqb (act_of qC T_RPAREN) (Some (Reduce iSeqCC)) &&
-  act_eqb (act_of qSC T_RPAREN) (Some (Shift sCR)) &&
-  act_eqb (Some (Shift qA1)) (option_map Shift (goto_E sFL)) && act_eqb (Some (Shift qC)) (option_map Shift (goto_E sC)).
+  forallb (fun sp =>
+    existsb (Z.eqb (sC sp)) es_list && match ctx (qC sp) with None => true | Some _ => false end &&
+    act_eqb (act_of qA1 (sep_term sp)) (Some (Reduce (iSeqC sp))) && (0 <? qSC sp) &&
+    act_eqb (act_of (qSC sp) (sep_term sp)) (Some (Shift (sC sp))) &&
+    act_eqb (act_of (qC sp) (sep_term sp)) (Some (Reduce (iSeqCC sp))) && act_eqb (act_of (qC sp) T_RPAREN) (Some (Reduce (iSeqCC sp))) &&
+    act_eqb (act_of (qSC sp) T_RPAREN) (Some (Shift (sCR sp))) &&
+    act_eqb (Some (Shift (qC sp))) (option_map Shift (goto_E (sC sp)))) all_seps &&
+  act_eqb (Some (Shift qA1)) (option_map Shift (goto_E sFL)).
 Definition cert_full : bool := cert && d_shifts && d_reduces && d_prods && d_call.
 
 Theorem cert_full_ok : cert_full = true.
@@ -268,8 +279,8 @@ Proof. intros H. assert (forallb (fun k => act_eqb (act_of sF0 k) (Some (Reduce 
 Lemma F_call1_red k : follow k -> act_of sSeq1R k = Some (Reduce iCall1).
 Proof. intros H. assert (forallb (fun k => act_eqb (act_of sSeq1R k) (Some (Reduce iCall1))) follow_list = true) as K by (vm_compute; reflexivity).
   by_follow K k H. apply act_eqb_eq, K. Qed.
-Lemma F_callN_red k : follow k -> act_of sCR k = Some (Reduce iCallN).
-Proof. intros H. assert (forallb (fun k => act_eqb (act_of sCR k) (Some (Reduce iCallN))) follow_list = true) as K by (vm_compute; reflexivity).
+Lemma F_callN_red sp k : follow k -> act_of (sCR sp) k = Some (Reduce (iCallN sp)).
+Proof. intros H. assert (forallb (fun k => act_eqb (act_of (sCR sp) k) (Some (Reduce (iCallN sp)))) follow_list = true) as K by (destruct sp; vm_compute; reflexivity).
   by_follow K k H. apply act_eqb_eq, K. Qed.
 Lemma F_colon c1 c2 : In c1 cell_kinds -> In c2 cell_kinds ->
   act_of (sCell c1) T_COLON = Some (Shift (sColon c1)) /\ act_of (sColon c1) c2 = Some (Shift (sCell2 c1 c2)).
@@ -317,22 +328,29 @@ Lemma P_closed :
   prod_of iVS = Some (NVS, 1, 17, [T_VARIABLE]) /\ prod_of iVar = Some (E, 1, 16, [- NVS]) /\
   prod_of iCellE = Some (E, 1, 19, [- N_cell]) /\ prod_of iCall0 = Some (E, 3, 7, [T_FUNCTION; T_LPAREN; T_RPAREN]) /\
   prod_of iSeq1 = Some (nSeq1, 1, fSeq1, [- E]) /\ seq_fn fSeq1 = true /\
-  prod_of iCall1 = Some (E, 4, 8, [T_FUNCTION; T_LPAREN; - nSeq1; T_RPAREN]) /\
-  prod_of iSeqC = Some (N_expseqcomma, 1, 12, [- E]) /\
-  prod_of iSeqCC = Some (N_expseqcomma, 3, 12, [- N_expseqcomma; T_COMMA; - E]) /\
-  prod_of iCallN = Some (E, 4, 8, [T_FUNCTION; T_LPAREN; - N_expseqcomma; T_RPAREN]).
+  prod_of iCall1 = Some (E, 4, 8, [T_FUNCTION; T_LPAREN; - nSeq1; T_RPAREN]).
 Proof. repeat split; vm_compute; reflexivity. Qed.
 Lemma F_call :
-  act_of sF T_LPAREN = Some (Shift sFL) /\ ES sFL /\ ES sC /\ ctx qA1 = None /\ ctx qC = None /\
+  act_of sF T_LPAREN = Some (Shift sFL) /\ ES sFL /\ ctx qA1 = None /\
   act_of sFL T_RPAREN = Some (Shift sF0) /\ act_of qA1 T_RPAREN = Some (Reduce iSeq1) /\ goto_of sFL nSeq1 = Some qSeq1 /\
-  act_of qSeq1 T_RPAREN = Some (Shift sSeq1R) /\ act_of qA1 T_COMMA = Some (Reduce iSeqC) /\
-  goto_of sFL N_expseqcomma = Some qSC /\ act_of qSC T_COMMA = Some (Shift sC) /\
-  act_of qC T_COMMA = Some (Reduce iSeqCC) /\ act_of qC T_RPAREN = Some (Reduce iSeqCC) /\
-  act_of qSC T_RPAREN = Some (Shift sCR) /\ goto_E sFL = Some qA1 /\ goto_E sC = Some qC.
+  act_of qSeq1 T_RPAREN = Some (Shift sSeq1R) /\ goto_E sFL = Some qA1.
 Proof.
   split; [vm_compute; reflexivity|]. split; [apply existsb_eqb_in; vm_compute; reflexivity|].
-  split; [apply existsb_eqb_in; vm_compute; reflexivity|].
   repeat split; vm_compute; reflexivity.
+Qed.
+(* the same for each of the three separators *)
+Lemma F_sep sp :
+  ES (sC sp) /\ ctx (qC sp) = None /\ act_of qA1 (sep_term sp) = Some (Reduce (iSeqC sp)) /\
+  goto_of sFL (sep_nt sp) = Some (qSC sp) /\ act_of (qSC sp) (sep_term sp) = Some (Shift (sC sp)) /\
+  act_of (qC sp) (sep_term sp) = Some (Reduce (iSeqCC sp)) /\ act_of (qC sp) T_RPAREN = Some (Reduce (iSeqCC sp)) /\
+  act_of (qSC sp) T_RPAREN = Some (Shift (sCR sp)) /\ goto_E (sC sp) = Some (qC sp) /\
+  prod_of (iSeqC sp) = Some (sep_nt sp, 1, sep_fn sp, [- E]) /\
+  prod_of (iSeqCC sp) = Some (sep_nt sp, 3, sep_fn sp, [- sep_nt sp; sep_term sp; - E]) /\
+  prod_of (iCallN sp) = Some (E, 4, 8, [T_FUNCTION; T_LPAREN; - sep_nt sp; T_RPAREN]) /\ seq_fn (sep_fn sp) = true /\
+  term (sep_term sp).
+Proof.
+  destruct sp; (split; [apply existsb_eqb_in; vm_compute; reflexivity|]); repeat split; try (vm_compute; reflexivity);
+    unfold term, terminators; cbn; tauto.
 Qed.
 
 (* ---------- runs of the real driver, with events ---------- *)
@@ -432,7 +450,7 @@ Fixpoint xsteps (e : expr) : nat :=
   match e with
   | XNum _ => 2 | XVar _ => 3 | XCell _ _ => 3 | XRange _ _ _ _ => 5
   | XDec _ _ => 4 | XFrac _ => 3 | XPct _ => 3 | XPowLit _ _ => 4 | XStr _ => 2 | XErr _ => 2
-  | XCall _ args => (4 + sum_with xsteps args)%nat
+  | XCall _ _ args => (4 + sum_with xsteps args)%nat
   | XNeg e => (2 + xsteps e)%nat
   | XBin _ l r => (xsteps l + xsteps r + 2)%nat
   | XPar e => (xsteps e + 3)%nat
@@ -445,7 +463,6 @@ Definition expr_spec (h : host) (e : expr) : Prop :=
     reachle h (xsteps e) (st, xtoks e ++ rest) (snd (xval h e))
       (tgt (fun v => ((q, SVval v) :: st, rest)) (fst (xval h e))).
 
-Lemma term_comma : term T_COMMA. Proof. unfold term, terminators. cbn. tauto. Qed.
 Lemma term_rparen : term T_RPAREN. Proof. unfold term, terminators. cbn. tauto. Qed.
 Lemma seq_action_1 h f v : seq_fn f = true -> sem_action h f [- E] [SVval v] = (ROk (SVseq [v]), []).
 Proof.
@@ -454,37 +471,38 @@ Proof.
   destruct (f =? 13) eqn:C; [assert (f = 13) as -> by lia; reflexivity|]. discriminate.
 Qed.
 
-Lemma seq_toks_cons f a r : seq_toks f (a :: r) = comma :: f a ++ seq_toks f r. Proof. reflexivity. Qed.
+Lemma seq_toks_cons sp f a r : seq_toks sp f (a :: r) = sep_tok sp :: f a ++ seq_toks sp f r. Proof. reflexivity. Qed.
 Lemma xvals_cons f a r : xvals f (a :: r) = ebind (f a) (fun v => ebind (xvals f r) (fun vs => (ROk (v :: vs), []))). Proof. reflexivity. Qed.
 Lemma sum_with_cons f a r : sum_with f (a :: r) = (f a + 2 + sum_with f r)%nat. Proof. reflexivity. Qed.
 (* the arguments after the first: "," expression, repeatedly *)
-Lemma args_loop h name st rest : forall l, Forall (expr_spec h) l -> all_wp l -> forall vs0,
+Lemma seq_action_3 h sp l v : sem_action h (sep_fn sp) [- sep_nt sp; sep_term sp; - E] [SVseq l; SVtok (sep_lex sp); SVval v] = (ROk (SVseq (l ++ [v])), []).
+Proof. destruct sp; reflexivity. Qed.
+Lemma args_loop h sp name st rest : forall l, Forall (expr_spec h) l -> all_wp l -> forall vs0,
   let st0 := (sFL, SVtok [40]) :: (sF, SVtok name) :: st in
-  reachle h (sum_with xsteps l) ((qSC, SVseq vs0) :: st0, seq_toks xtoks l ++ Tok T_RPAREN [41] :: rest)
+  reachle h (sum_with xsteps l) ((qSC sp, SVseq vs0) :: st0, seq_toks sp xtoks l ++ Tok T_RPAREN [41] :: rest)
     (snd (xvals (xval h) l))
-    (tgt (fun ws => ((qSC, SVseq (vs0 ++ ws)) :: st0, Tok T_RPAREN [41] :: rest)) (fst (xvals (xval h) l))).
+    (tgt (fun ws => ((qSC sp, SVseq (vs0 ++ ws)) :: st0, Tok T_RPAREN [41] :: rest)) (fst (xvals (xval h) l))).
 Proof.
-  destruct F_call as (_ & _ & HESC & _ & HctxC & _ & _ & _ & _ & _ & HgoSC & HshC & HredC1 & HredC2 & _ & _ & HgoC).
-  destruct P_closed as (_ & _ & _ & _ & _ & _ & _ & _ & PCC & _).
+  destruct (F_sep sp) as (HESC & HctxC & _ & HgoSC & HshC & HredC1 & HredC2 & _ & HgoC & _ & PCC & _ & _ & Hterm).
   induction l as [|b l IH]; intros HF Hwp vs0 st0.
-  - change (seq_toks xtoks []) with (@nil token). change (xvals (xval h) []) with (@ROk (list value) [], @nil event).
+  - change (seq_toks sp xtoks []) with (@nil token). change (xvals (xval h) []) with (@ROk (list value) [], @nil event).
     cbn [fst snd tgt app]. rewrite app_nil_r. apply rl_here.
   - inversion HF as [|? ? Hb HF']; subst. destruct Hwp as [Hwb Hwl].
     rewrite seq_toks_cons, xvals_cons, sum_with_cons. cbn [app]. rewrite <- app_assoc.
     eapply rl_weaken with (N := S (xsteps b + (1 + sum_with xsteps l))); [lia|].
-    eapply rl_shift; [exact HshC|]. cbn [lexeme comma].
-    eapply (rl_bind h (xval h b) _ _ (fun w => ((qC, SVval w) :: (sC, SVtok [44]) :: (qSC, SVseq vs0) :: st0, seq_toks xtoks l ++ Tok T_RPAREN [41] :: rest))).
+    eapply rl_shift; [exact HshC|]. cbn [lexeme sep_tok].
+    eapply (rl_bind h (xval h b) _ _ (fun w => ((qC sp, SVval w) :: (sC sp, SVtok (sep_lex sp)) :: (qSC sp, SVseq vs0) :: st0, seq_toks sp xtoks l ++ Tok T_RPAREN [41] :: rest))).
     + apply Hb; cbn [top_state]; auto.
       * unfold xenter_ok, enters. rewrite HctxC. destruct (xtop b); exact I.
-      * left. destruct l; [|rewrite seq_toks_cons]; cbn [app la tk comma]; [apply term_rparen|apply term_comma].
+      * left. destruct l; [|rewrite seq_toks_cons]; cbn [app la tk sep_tok]; [apply term_rparen|exact Hterm].
     + intros w _.
-      assert (act_of qC (la (seq_toks xtoks l ++ Tok T_RPAREN [41] :: rest)) = Some (Reduce iSeqCC)) as Hact
-        by (destruct l; [|rewrite seq_toks_cons]; cbn [app la tk comma]; assumption).
-      eapply rl_pure; [exact Hact|exact PCC|apply pop3|reflexivity|exact HgoSC|].
+      assert (act_of (qC sp) (la (seq_toks sp xtoks l ++ Tok T_RPAREN [41] :: rest)) = Some (Reduce (iSeqCC sp))) as Hact
+        by (destruct l; [|rewrite seq_toks_cons]; cbn [app la tk sep_tok]; assumption).
+      eapply rl_pure; [exact Hact|exact PCC|apply pop3|apply seq_action_3|exact HgoSC|].
       eapply rl_weaken with (N := (sum_with xsteps l + 0)%nat); [lia|].
       eapply (rl_bind h (xvals (xval h) l) (fun vs => (ROk (w :: vs), [])) _
-                (fun ws => ((qSC, SVseq ((vs0 ++ [w]) ++ ws)) :: st0, Tok T_RPAREN [41] :: rest))
-                (fun ws => ((qSC, SVseq (vs0 ++ ws)) :: st0, Tok T_RPAREN [41] :: rest)) _ 0).
+                (fun ws => ((qSC sp, SVseq ((vs0 ++ [w]) ++ ws)) :: st0, Tok T_RPAREN [41] :: rest))
+                (fun ws => ((qSC sp, SVseq (vs0 ++ ws)) :: st0, Tok T_RPAREN [41] :: rest)) _ 0).
       * apply IH; assumption.
       * intros ws _. cbn [fst snd tgt]. rewrite <- app_assoc. cbn [app]. apply rl_here.
 Qed.
@@ -492,7 +510,7 @@ Qed.
 Lemma pop4 s1 v1 s2 v2 s3 v3 s4 v4 st :
   pop_n (Z.to_nat 4) ((s1, v1) :: (s2, v2) :: (s3, v3) :: (s4, v4) :: st) [] = Some ([v4; v3; v2; v1], st).
 Proof. reflexivity. Qed.
-Lemma all_wp_eq args : xwp (XCall [] args) = all_wp args. Proof. reflexivity. Qed.
+Lemma all_wp_eq sp args : xwp (XCall sp [] args) = all_wp args. Proof. reflexivity. Qed.
 
 Lemma forall_spec h l : Forall (fun e => xwp e -> expr_spec h e) l -> all_wp l -> Forall (expr_spec h) l.
 Proof. induction 1 as [|a l Ha Hl IH]; intros W; [constructor|]. destruct W as [Wa Wl]. constructor; auto. Qed.
@@ -501,11 +519,10 @@ Theorem lr_runs_expr (h : host) : forall e, xwp e -> expr_spec h e.
 Proof.
   destruct prod_facts as (PA & PN & PP & PB).
   destruct H_paren as (HESL & HESU & HES0 & HctxL & Hctx0 & Hrp & HgoL & HgoU & Hgo0 & HctxU).
-  destruct P_closed as (PVS & PVar & PCellE & PCall0 & PSeq1 & PSeq1fn & PCall1 & PSeqC & PSeqCC & PCallN).
-  destruct F_call as (HshFL & HESFL & HESC & HctxA1 & HctxC & HshF0 & HredSeq1 & HgoSeq1 & HshSeq1R & HredSeqC & HgoSC &
-                      HshC & HredC1 & HredC2 & HshCR & HgoFL & HgoC).
+  destruct P_closed as (PVS & PVar & PCellE & PCall0 & PSeq1 & PSeq1fn & PCall1).
+  destruct F_call as (HshFL & HESFL & HctxA1 & HshF0 & HredSeq1 & HgoSeq1 & HshSeq1R & HgoFL).
   destruct F_lit_closed as (LsAD & LsADN & LsAP & LsAC & LsACN & LsDN & PStr & PXl & PDec & PPct & PPow & PFrac).
-  induction e as [d|ip fp|fp|pn|pa pb|str|xe|n|k lab|k1 l1 k2 l2|name args IHargs|e IH|b l r IHl IHr|e IH] using expr_ind';
+  induction e as [d|ip fp|fp|pn|pa pb|str|xe|n|k lab|k1 l1 k2 l2|sp name args IHargs|e IH|b l r IHl IHr|e IH] using expr_ind';
     intros Hwp st rest q HES Hgo Hent Hfol; pose proof (xfollow_follow _ _ Hfol) as Hfw;
     try (destruct (F_lit_shift _ HES) as (ShS & ShX & ShD)); try (destruct (F_lit_red _ Hfw) as (RS & RX & RDec & RPct & RPow & RFrac)).
   - (* number *)
@@ -585,31 +602,32 @@ Proof.
       eapply (rl_final h _ _ _ _ _ _ _ _ _ q (call_function h name [])); [apply F_call0_red; exact Hfw|exact PCall0|apply pop3|exact Hgo|].
       unfold sem_action. destruct (call_function h name []); reflexivity.
     + inversion IHargs as [|? ? Ha Hr]; subst. destruct Hwp as [Hwa Hwr].
+      destruct (F_sep sp) as (HESC & HctxC & HredSeqC & HgoSC & HshC & HredC1 & HredC2 & HshCR & HgoC & PSeqC & PSeqCC & PCallN & Hsfn & Hterm).
       set (st0 := (sFL, SVtok [40]) :: (sF, SVtok name) :: st).
       cbn [args_toks]. rewrite <- !app_assoc. rewrite sum_with_cons.
       change ([Tok T_RPAREN [41]] ++ rest) with (Tok T_RPAREN [41] :: rest).
       eapply rl_weaken with (N := ((xsteps a + 1 + sum_with xsteps r) + 2)%nat); [lia|].
       eapply (rl_bind h (xvals (xval h) (a :: r)) (fun vs => call_function h name vs) _
-                (fun vs => ((match r with [] => qSeq1 | _ => qSC end, SVseq vs) :: st0, Tok T_RPAREN [41] :: rest))).
+                (fun vs => ((match r with [] => qSeq1 | _ => qSC sp end, SVseq vs) :: st0, Tok T_RPAREN [41] :: rest))).
       * (* the arguments *)
         rewrite xvals_cons.
         eapply rl_weaken with (N := (xsteps a + (1 + sum_with xsteps r))%nat); [lia|].
-        eapply (rl_bind h (xval h a) _ _ (fun v => ((qA1, SVval v) :: st0, seq_toks xtoks r ++ Tok T_RPAREN [41] :: rest))).
+        eapply (rl_bind h (xval h a) _ _ (fun v => ((qA1, SVval v) :: st0, seq_toks sp xtoks r ++ Tok T_RPAREN [41] :: rest))).
         -- apply (Ha Hwa); cbn [top_state st0]; auto.
            ++ unfold xenter_ok, enters. rewrite HctxA1. destruct (xtop a); exact I.
-           ++ left. destruct r; [|rewrite seq_toks_cons]; cbn [app la tk comma]; [apply term_rparen|apply term_comma].
+           ++ left. destruct r; [|rewrite seq_toks_cons]; cbn [app la tk sep_tok]; [apply term_rparen|exact Hterm].
         -- intros v _. destruct r as [|b r'].
-           ++ change (seq_toks xtoks []) with (@nil token). change (xvals (xval h) []) with (@ROk (list value) [], @nil event).
+           ++ change (seq_toks sp xtoks []) with (@nil token). change (xvals (xval h) []) with (@ROk (list value) [], @nil event).
               cbn [app ebind fst snd tgt sum_with].
               eapply rl_pure; [exact HredSeq1|exact PSeq1|apply pop1|apply seq_action_1; exact PSeq1fn|exact HgoSeq1|apply rl_here].
            ++ eapply rl_weaken with (N := S (sum_with xsteps (b :: r') + 0)); [lia|].
-              eapply rl_pure; [rewrite seq_toks_cons; cbn [app la tk comma]; exact HredSeqC|exact PSeqC|apply pop1|reflexivity|exact HgoSC|].
+              eapply rl_pure; [rewrite seq_toks_cons; cbn [app la tk sep_tok]; exact HredSeqC|exact PSeqC|apply pop1|apply seq_action_1; exact Hsfn|exact HgoSC|].
               eapply (rl_bind h (xvals (xval h) (b :: r')) (fun vs => (ROk (v :: vs), [])) _
-                        (fun ws => ((qSC, SVseq ([v] ++ ws)) :: st0, Tok T_RPAREN [41] :: rest))).
-              ** apply (args_loop h name st rest (b :: r') (forall_spec h _ Hr Hwr) Hwr [v]).
+                        (fun ws => ((qSC sp, SVseq ([v] ++ ws)) :: st0, Tok T_RPAREN [41] :: rest))).
+              ** apply (args_loop h sp name st rest (b :: r') (forall_spec h _ Hr Hwr) Hwr [v]).
               ** intros ws _. cbn [fst snd tgt app]. apply rl_here.
       * (* ")" and the call *)
-        intros vs _. eapply rl_shift with (q := match r with [] => sSeq1R | _ => sCR end); [destruct r; cbn [top_state]; assumption|]. cbn [lexeme].
+        intros vs _. eapply rl_shift with (q := match r with [] => sSeq1R | _ => sCR sp end); [destruct r; cbn [top_state]; assumption|]. cbn [lexeme].
         destruct r as [|b r'].
         -- eapply (rl_final h _ _ _ _ _ _ _ _ _ q (call_function h name vs)); [apply F_call1_red; exact Hfw|exact PCall1|apply pop4|exact Hgo|].
            unfold sem_action. destruct (call_function h name vs); reflexivity.
@@ -694,17 +712,17 @@ Proof.
     rewrite R2. rewrite !app_nil_r. reflexivity.
 Qed.
 
-Lemma sum_bound l : Forall (fun a => (xsteps a <= 4 * length (xtoks a))%nat) l ->
-  (sum_with xsteps l <= 4 * length (seq_toks xtoks l))%nat.
+Lemma sum_bound sp l : Forall (fun a => (xsteps a <= 4 * length (xtoks a))%nat) l ->
+  (sum_with xsteps l <= 4 * length (seq_toks sp xtoks l))%nat.
 Proof.
   induction 1 as [|a l Ha Hl IH]; [cbn; lia|]. rewrite sum_with_cons, seq_toks_cons. cbn [length]. rewrite app_length. lia.
 Qed.
 Lemma xsteps_bound e : (xsteps e <= 4 * length (xtoks e))%nat.
 Proof.
-  induction e as [d|ip fp|fp|pn|pa pb|str|xe|n|k lab|k1 l1 k2 l2|name args IHargs|e IH|b l r IHl IHr|e IH] using expr_ind';
+  induction e as [d|ip fp|fp|pn|pa pb|str|xe|n|k lab|k1 l1 k2 l2|sp name args IHargs|e IH|b l r IHl IHr|e IH] using expr_ind';
     cbn [xsteps xtoks length]; rewrite ?app_length; cbn [length]; try lia.
   destruct args as [|a r]; [cbn; lia|]. inversion IHargs as [|? ? Ha Hr]; subst.
-  rewrite sum_with_cons. cbn [args_toks]. rewrite app_length. pose proof (sum_bound r Hr). lia.
+  rewrite sum_with_cons. cbn [args_toks]. rewrite app_length. pose proof (sum_bound sp r Hr). lia.
 Qed.
 
 Definition record_of (r : res value) : precord :=
